@@ -573,11 +573,17 @@ func entryAssumptions(g *G, idx funcIndex, keys []string) []string {
 			changed = true
 			// in set-up code verified with `opaquecalls` only callees under
 			// contract have their preconditions checked
-			opaque := false
+			opaque, stops := false, false
 			for f := fn; f != nil; f = f.Parent() {
 				if c := g.contracts[funcKey(f)]; c != nil && c.OpaqueCalls {
 					opaque = true
 				}
+				if c := g.contracts[funcKey(f)]; c != nil && c.StopAt != "" {
+					stops = true // verified up to the stop site only: what it calls afterwards is not checked
+				}
+			}
+			if stops {
+				continue
 			}
 			mark := func(f *ssa.Function) {
 				f = target(f)
